@@ -16,8 +16,8 @@ PROP = 'C06'
 LEVEL = 'exploration'
 SHARDS = {'quick': 4, 'thorough': 16}
 TIMEOUT = {'quick': 300, 'thorough': 3000}
-MAXN = {'quick': 5, 'thorough': 6}
-N_RANDOM = {'quick': 1500, 'thorough': 80000}
+MAXN = {'quick': 5, 'thorough': 7}
+N_RANDOM = {'quick': 1500, 'thorough': 400000}
 RULE = ('cases: (a) exhaustive: n in 1..N systems x priority pattern (distinct / ties / all equal) x completer position x completion '
         'timestep {0,1,3} (+ completion from outside between steps), each followed by a seeded tail of 5-30 requests from '
         '{execute(), execute(n), execute_systems(), execute_systems(True), add_system, remove_system, complete()}; (b) random: windows '
